@@ -106,6 +106,13 @@ CHECKS = {
          "offset must raise a decode error or be itself well-formed (byte-identical re-encoding); oversize fields must make write() raise ValueError.",
          "message dispatch by type byte is out of scope (C06); NextProtocol padding content is opaque; record-layer framing is C14/C08",
          "DESIGN.md §4 C15"),
+ "C16": ("exploration",
+         "model-based stateful property testing of post-handshake traffic with a reference receiver following every key generation; adversarial control messages from a well-keyed sender",
+         "Histories of writes/reads, KeyUpdate (requested or not, either side, crossing), post-handshake authentication requests, heartbeat requests and one final adversarial message (17 kinds) run on an established TLS 1.3 (and TLS 1.2) pair: "
+         "the FIFO model holds after every step, heartbeat callbacks get exactly the request payloads, the server-side client chain changes only through a completed authentication and every context is consumed, both ends end with equal traffic secrets, and the reference receiver - rolling its secrets at every KeyUpdate it sees on the wire - "
+         "opens every record of both directions and ends at the same generation; adversarial messages must be answered with a fatal alert (RFC 6520 drop-silently cases must leave the data stream intact).",
+         "reference receiver validated in C09; adversarial sender is a real endpoint using _sendMsg with raw bytes",
+         "DESIGN.md §4 C16"),
  "C17": ("fault_enumeration",
          "fault enumeration by stream offset on scripted sockets (EOF / ECONNRESET / EPIPE at every record boundary and header/body split of every flight, both endpoints, both directions) plus enumerated closure events in the data phase",
          "For 12 handshake flavours a fault-free run records both byte streams; the scripted socket then delivers/accepts exactly up to offset o and faults, for o over every record boundary, +1..+5, middle and last byte of every record x fault kind x endpoint x direction. "
